@@ -30,6 +30,9 @@ type Case struct {
 	Validity     string         `json:"validity"`  // same http otherhost otherport subdomain
 	Time         string         `json:"time"`      // date-1 date date+1 mid expires-1 expires expires+1
 	Lifetime     int64          `json:"lifetime"`  // expires - date
+	// DateShift moves the signed date away from the fixed base (2023): date = baseDate + DateShift.
+	// Legal dates are any integer: before 1970, 0, around 2^31 / 2^32 seconds, the year 9999.
+	DateShift int64 `json:"date_shift,omitempty"`
 	Integrity    string         `json:"integrity"` // right other junk
 	Method       string         `json:"method"`
 	ReqHeaders   []gen.HeaderKV `json:"req_headers,omitempty"`
@@ -42,6 +45,16 @@ type Case struct {
 }
 
 const baseDate = int64(1_700_000_000)
+
+// Lifetimes far above 7 days at which an implementation's arithmetic may wrap: 2^31 and 2^32
+// seconds, the largest number of seconds whose nanoseconds fit an int64 (9223372036) and the
+// values after it, 300 / 500 / 585 / 1000 / 3000 years, 2^40, 2^50.
+var extremeLifetimes = []int64{1<<31 - 1, 1 << 31, 1<<32 - 1, 1 << 32, 1<<32 + 604800, 1 << 33, 9223372036, 9223372037, 9223372036 + 604800,
+	9467280000, 15778800000, 18446744073, 18446744074, 18446744073 + 604800, 31557600000, 94672800000, 1 << 40, 1 << 50}
+
+// Dates (relative to baseDate) before 1970, at 0, around 2^31 and 2^32 seconds and at the end of the year 9999.
+var extremeDateShifts = []int64{-baseDate - 315360000, -baseDate - 1, -baseDate, -baseDate + 1, 1<<31 - 1 - baseDate - 302400, 1<<31 - baseDate, 1<<32 - baseDate - 302400,
+	1<<32 - baseDate, 1<<33 - baseDate, 253402300799 - 604800 - baseDate}
 
 // Lists typed in from the drafts (draft-yasskin-http-origin-signed-responses "Uncached header
 // fields" + "Stateful header fields"; impl draft "stateful request headers").
@@ -181,7 +194,7 @@ func build(c *Case) *sxgkit.Spec {
 		host = "a.example"
 	}
 	s := &sxgkit.Spec{Version: c.Version, Fixture: c.Fixture, URL: "https://" + host + "/page?x=1", Method: c.Method, Status: c.Status,
-		PayloadLen: 50, PayloadTag: 3, RecordSize: 16, Date: baseDate, Expires: baseDate + c.Lifetime, CertURL: "https://cert.example/c"}
+		PayloadLen: 50, PayloadTag: 3, RecordSize: 16, Date: baseDate + c.DateShift, Expires: baseDate + c.DateShift + c.Lifetime, CertURL: "https://cert.example/c"}
 	switch c.Validity {
 	case "same":
 		s.ValidityURL = "https://" + host + "/validity"
@@ -257,7 +270,7 @@ var prop = vh.Define("C09", "policy", func(c Case, r *vh.R) {
 		}
 	}
 	want, reasons := refPolicy(&c)
-	t := baseDate + tOffset(&c)
+	t := baseDate + c.DateShift + tOffset(&c)
 	p, got, lg := sxgkit.VerifyLogAt(e, t, tNsec(&c), sxgkit.Fetcher(c.Fixture))
 	r.Class(c.Version)
 	if want {
@@ -313,6 +326,9 @@ func allGood(t *rapid.T) Case {
 		Status:      rapid.SampledFrom([]int{200, 200, 203, 204, 206, 300, 301, 404, 405, 410, 414, 501}).Draw(t, "status"),
 		ViaFile:     rapid.Bool().Draw(t, "viafile"),
 	}
+	if rapid.IntRange(0, 5).Draw(t, "far-date") == 0 {
+		c.DateShift = rapid.SampledFrom(extremeDateShifts).Draw(t, "date-shift")
+	}
 	c.ReqHeaders = gen.Headers(t, "req", 2)
 	c.ResHeaders = gen.Headers(t, "res", 3)
 	// harmless Cache-Control content in random spelling, split over 1-2 field values
@@ -354,7 +370,7 @@ func fault(t *rapid.T, c *Case) {
 	case "time":
 		c.Time = rapid.SampledFrom([]string{"date-1", "expires+1", "date-ns", "expires+ns", "expires+ms"}).Draw(t, "badtime")
 	case "lifetime":
-		c.Lifetime = rapid.SampledFrom([]int64{604801, 604801, 700000, 1 << 31}).Draw(t, "badlife")
+		c.Lifetime = rapid.SampledFrom(append([]int64{604801, 604801, 604801, 700000, 700000}, extremeLifetimes...)).Draw(t, "badlife")
 	case "integrity":
 		c.Integrity = rapid.SampledFrom([]string{"other", "junk", "other-complete", "other-complete"}).Draw(t, "integrity")
 	case "res-banned":
@@ -439,6 +455,20 @@ func TestGrid(t *testing.T) {
 		for _, tm := range []string{"date-1", "date", "date+1", "mid", "expires-1", "expires", "expires+1", "date-ns", "date+ns", "expires-ns", "expires+ns", "expires+ms"} {
 			for _, life := range []int64{604799, 604800, 604801, 0, 1} {
 				ok = ok && try(func(c *Case) { c.Time = tm; c.Lifetime = life })
+			}
+		}
+		// numeric extremes of legal values: lifetimes whose number of nanoseconds (or of seconds
+		// in 32 bits) does not fit, dates before 1970, at 0, around 2^31 / 2^32 and in the year 9999
+		for _, life := range extremeLifetimes {
+			for _, tm := range []string{"date", "date+1", "mid", "expires-1", "expires"} {
+				ok = ok && try(func(c *Case) { c.Time = tm; c.Lifetime = life })
+			}
+		}
+		for _, shift := range extremeDateShifts {
+			for _, tm := range []string{"date-1", "date", "mid", "expires", "expires+1", "date-ns", "expires+ns"} {
+				for _, life := range []int64{604800, 604801, 1} {
+					ok = ok && try(func(c *Case) { c.Time = tm; c.Lifetime = life; c.DateShift = shift })
+				}
 			}
 		}
 		for _, val := range []string{"http", "otherhost", "otherport", "subdomain"} {
